@@ -18,7 +18,4 @@ for id in $ids; do
     if echo "$out" | grep -q "patch does not apply"; then verdict="NOAPPLY $id"; break; fi
   done
   echo "$verdict"
-  # the Go build cache grows by gigabytes per check run (every run compiles a freshly generated corpus module)
-  n=$((n+1))
-  if [ $((n % 8)) = 0 ] && [ "$(du -sm ${GOCACHE:-$HOME/.cache/go-build} 2>/dev/null | cut -f1)" -gt 30000 ]; then go clean -cache; fi
 done
